@@ -173,7 +173,7 @@ def build_tree(sc, bt):
     core = bt.core
     cls = sc["self_cls"]
     is_strat = cls in ("StrategyBase", "Strategy", "FixedIncomeStrategy")
-    idx = sc["idx"]
+    idx = {d: p for d, p in sc["idx"].items() if int(d) != 0}
     L = max([p for p in idx.values() if isinstance(p, int)] + [int(k) for f in sc["hist"].values() for k in f.keys()] + [1]) + 2
     if L > 4000 or min([p for p in idx.values() if isinstance(p, int)] + [0]) < 0:
         raise ValueError("unrealisable index positions %s" % idx)
@@ -334,7 +334,10 @@ class ConcreteState(object):
             return self.hov[k]
         if (id(obj), field) in self.fills:
             return self.fills[(id(obj), field)]
-        return float(getattr(obj, field).values[i])
+        try:
+            return float(getattr(obj, field).values[i])
+        except (AttributeError, IndexError, TypeError):  # eagerly evaluated operand of a guarded (untaken) branch
+            return float("nan")
 
     def hist_set(self, obj, field, i, val):
         if self.alive():
